@@ -303,7 +303,7 @@ def main(argv):
             if witness:
                 f.write("FAILING INPUT replayed on the real code (binary /verif/replay built against %s):\n" % pl.REPO)
                 f.write("  type      : %s\n  operation : %s\n  operands  : %s   (parts in declaration order; None = absent part)\n  scalars   : %s\n" % (witness["type"], witness["function"], witness["operands"], witness["scalars"]))
-                f.write("  observed  : %s\n  expected  : %s   (independent truncated-Taylor oracle, lib/oracle.py)\n" % (witness["observed"], witness["expected"]))
+                f.write("  observed  : %s\n  expected  : %s   (%s)\n" % (witness["observed"], witness["expected"], witness.get("oracle", "independent truncated-Taylor oracle, lib/oracle.py")))
                 f.write("  reproduce : echo '%s' | %s\n\n" % (rp.fmt_req(witness["type"], witness["function"], witness["operands"], witness["scalars"]), "<.cache/replay-target*/release/replay>"))
             elif verus_failed:
                 f.write("no failing input found by the replay search: %s\n\n" % note)
